@@ -24,6 +24,8 @@ func init() {
 			"PV-ONCE step transformers read one inner step per outer step (no loop that can spin on an unbounded grid)",
 			"PF-IDX constant indices in the Docker backend are guarded",
 			"PV-GUARD every matching field of the modifier is tested by BinOp; PF-IDX constant indices in the engine and parser are guarded",
+			"labels are cleared (the map stays usable) before each record",
+			"PF-NIL errors.As targets are addresses",
 		},
 		NotDecided: []string{
 			"termination of loops (lexer scanners, IPLineFilter, stepper – the last relies on C16's positivity for CLI callers)",
@@ -59,6 +61,8 @@ func init() {
 			ruleConstIndexGuarded(r, []string{dockerlogPkg}, 2)
 			ruleModifierGuardComplete(r)
 			ruleConstIndexGuarded(r, []string{enginePkg, logqlPkg}, 6)
+			ruleSetClearedPerRecord(r)
+			ruleErrorsAsTargets(r, []string{enginePkg, metricPkg, dockerlogPkg, cmdPkg, logqlPkg})
 		},
 	})
 }
